@@ -26,6 +26,19 @@ type TokSpec struct {
 	User     string `json:"user"`              // user the token was issued for
 	Declared string `json:"declared"`          // access | refresh | id | jwt | saml2 | short | "" (parameter omitted)
 	Literal  string `json:"literal,omitempty"` // kind garbage: the token string
+	// sequences / multi-host providers (all optional: the zero values are the single exchange on a static-issuer provider)
+	Born     int `json:"born,omitempty"`      // index of the exchange right before which the token is minted (0 = at the start; never later than its own exchange)
+	MintHost int `json:"mint_host,omitempty"` // host of the provider (0 | 1) the token was obtained on (Hosts only)
+	Replay   int `json:"replay,omitempty"`    // k > 0: the very token string presented as SUBJECT of exchange k-1 is presented again (the other fields but Declared repeat that token's description)
+}
+
+// Step is one further exchange on the same long-lived provider.
+type Step struct {
+	KeyOp     string   `json:"key_op,omitempty"` // what the storage does with its keys before this step: "" | rotate-keep | rotate-withdraw | rotate-withdraw-samekid | withdraw-old
+	Host      int      `json:"host,omitempty"`   // host the exchange is sent to (Hosts only)
+	Subject   TokSpec  `json:"subject"`
+	Actor     *TokSpec `json:"actor,omitempty"`
+	Requested string   `json:"requested"`
 }
 
 type Case struct {
@@ -46,10 +59,24 @@ type Case struct {
 	Resource   []string      `json:"resource,omitempty"`
 	Policy     vkit.TEPolicy `json:"policy"`
 	Extras     bool          `json:"extras,omitempty"` // storage also implements TokenExchangeTokensVerifierStorage
+	// Shape (label only): single | hosts | seq | hosts-seq
+	Shape string `json:"shape,omitempty"`
+	// Hosts: the provider derives its issuer from the request's Host (op.IssuerFromHost): two issuers, one storage, one key set
+	Hosts bool `json:"hosts,omitempty"`
+	Host  int  `json:"host,omitempty"` // host the first exchange is sent to
+	// More: further exchanges on the same provider, each judged like the first against the storage's state at that time
+	More []Step `json:"more,omitempty"`
+}
+
+// steps lists the exchanges of a case: the case's own fields are the first one.
+func (c Case) steps() []Step {
+	out := []Step{{Host: c.Host, Subject: c.Subject, Actor: c.Actor, Requested: c.Requested}}
+	return append(out, c.More...)
 }
 
 const (
-	issuer        = "https://op.example.com"
+	issuer        = "https://op.example.com" // = the issuer of host 0 of a provider with a host-derived issuer
+	otherHost     = "other.example.com"
 	foreignIssuer = "https://other-op.example.org"
 	urnPrefix     = "urn:ietf:params:oauth:token-type:"
 )
@@ -176,9 +203,79 @@ var (
 	badRequest  = []string{"jwt", "saml2", "short"}
 )
 
-// genCase: three modes. "eligible": every premise of the statement holds (the response is judged); "single": exactly
-// one premise is broken (each must-reject reason in isolation); "free": independent draws (combinations).
+var keyOps = []string{"", "", "rotate-keep", "rotate-withdraw", "rotate-withdraw-samekid", "withdraw-old"}
+
+// genCase: the first exchange (genOne) and, in half of the cases, the provider's life around it: a provider whose issuer is
+// derived from the Host header serving two hosts (tokens obtained on one host presented on the other), and / or 1-3 further
+// exchanges on the same provider with changes of the storage's keys in between (tokens minted before a change presented
+// after it, the very token of an earlier exchange presented again).
 func genCase(t *rapid.T) Case {
+	c := genOne(t)
+	c.Shape = rapid.SampledFrom([]string{"single", "single", "single", "single", "single", "hosts", "seq", "seq", "hosts-seq", "hosts-seq"}).Draw(t, "shape")
+	if c.Shape == "single" {
+		return c
+	}
+	thirdOK := c.Policy.VerifyThird && c.Extras
+	hostOf := func(label string, near ...int) int {
+		if !c.Hosts {
+			return 0
+		}
+		return rapid.SampledFrom(append(near, near[0], 1-near[0])).Draw(t, label)
+	}
+	if c.Shape != "seq" {
+		c.Hosts = true
+		c.Host = rapid.IntRange(0, 1).Draw(t, "host")
+		c.Subject.MintHost = hostOf("s.minthost", c.Host)
+		if c.Actor != nil {
+			c.Actor.MintHost = hostOf("a.minthost", c.Host)
+		}
+	}
+	if c.Shape == "hosts" {
+		return c
+	}
+	n := rapid.IntRange(1, 3).Draw(t, "more")
+	prev := c.Host
+	for i := 1; i <= n; i++ {
+		l := fmt.Sprintf("x%d.", i)
+		var st Step
+		st.KeyOp = rapid.SampledFrom(keyOps).Draw(t, l+"keyop")
+		if c.Hosts {
+			st.Host = rapid.IntRange(0, 1).Draw(t, l+"host")
+		}
+		tok := func(role string) TokSpec {
+			if k := rapid.IntRange(-2*i, i).Draw(t, l+role+"replay"); k > 0 {
+				// the subject token of exchange k-1 once more
+				ts := c.steps()[k-1].Subject
+				ts.Replay = k
+				if ts.Born >= k {
+					ts.Born = k - 1
+				}
+				return ts
+			}
+			how := rapid.SampledFrom([]string{"good", "good", "good", "free"}).Draw(t, l+role+"how")
+			ts := genTok(t, l+role, how, thirdOK)
+			ts.Born = rapid.IntRange(0, i).Draw(t, l+role+"born")
+			ts.MintHost = hostOf(l+role+"minthost", st.Host, prev)
+			return ts
+		}
+		st.Subject = tok("s.")
+		if rapid.IntRange(0, 9).Draw(t, l+"actor") < 3 {
+			a := tok("a.")
+			st.Actor = &a
+		}
+		st.Requested = rapid.SampledFrom(okRequested).Draw(t, l+"requested")
+		if rapid.IntRange(0, 9).Draw(t, l+"badreq") == 9 {
+			st.Requested = rapid.SampledFrom(badRequest).Draw(t, l+"badrequested")
+		}
+		c.More = append(c.More, st)
+		prev = st.Host
+	}
+	return c
+}
+
+// genOne: three modes. "eligible": every premise of the statement holds (the response is judged); "single": exactly
+// one premise is broken (each must-reject reason in isolation); "free": independent draws (combinations).
+func genOne(t *rapid.T) Case {
 	var c Case
 	c.Mode = rapid.SampledFrom([]string{"eligible", "single", "free", "eligible", "single"}).Draw(t, "mode")
 	c.Router = rapid.SampledFrom([]string{"provider", "legacy"}).Draw(t, "router")
@@ -281,8 +378,12 @@ func genCase(t *rapid.T) Case {
 type world struct {
 	c       Case
 	st      *vkit.Store
-	ag      *vkit.Agent
-	sk      vkit.SignKeySpec
+	ags     [2]*vkit.Agent   // one per host (the same provider)
+	ag      *vkit.Agent      // agent of the exchange under way
+	iss     string           // issuer of the exchange under way
+	sk      vkit.SignKeySpec // the storage's signing key at this time
+	keyOps  int
+	keyTrace []string // key changes of the storage so far
 	clA     *vkit.ClientSpec
 	clB     *vkit.ClientSpec
 	foreign *vkit.Agent // lazily built second provider (other issuer, other keys)
@@ -321,7 +422,7 @@ func (w *world) foreignAgent() *vkit.Agent {
 			fst.CreateAuthRequest(context.Background(), &oidc.AuthRequest{ClientID: "client-b"}, "")
 		}
 		fst.Journal = nil
-		w.foreign = vkit.NewAgent(buildSUT("provider", foreignIssuer, 0x5a, fst, false))
+		w.foreign = vkit.NewAgent(buildSUT("provider", foreignIssuer, 0x5a, fst, false, false))
 	}
 	return w.foreign
 }
@@ -332,36 +433,49 @@ type tokenTruth struct {
 	Live    int    // +1 live at the provider, -1 certainly not, 0 setup did not reach the intended state (grey)
 	Subject string // subject the token stands for (live / vouched tokens)
 	Why     string
+	// Unverifiable: why the provider cannot verify this JWT where / when it is presented ("" = it can): issued under the
+	// issuer of the provider's other host, or signed by a key the storage has withdrawn
+	Unverifiable string
+	// kept for judging the token at the time and host of its presentation (see at)
+	final    bool   // Live / Why do not depend on time or host (garbage, third-party, foreign provider, failed setup)
+	orig     string // the token as issued
+	accessID string
+	refresh  string
+	signer   string // name and kid of the key the JWT was signed with
+	kid      string
+	mintHost int
 }
 
-// prepare produces the token string of a TokSpec and establishes, from the store's ground truth, whether it is live.
+// prepare produces the token string of a TokSpec through the provider (and the harness' forge); at establishes whether it is live.
 func (w *world) prepare(s TokSpec) tokenTruth {
 	switch s.Kind {
 	case "garbage":
-		return tokenTruth{Token: s.Literal, Live: -1, Why: "garbage"}
+		return tokenTruth{Token: s.Literal, Live: -1, Why: "garbage", final: true}
 	case "third":
-		return tokenTruth{Token: "third:" + s.User, Live: 0, Subject: s.User, Why: "third"} // decided by the vouching rule, see model
+		return tokenTruth{Token: "third:" + s.User, Live: 0, Subject: s.User, Why: "third", final: true} // decided by the vouching rule, see model
 	}
 	jwtAT := s.Kind == "jwt"
 	if s.State == "foreign" {
 		fa := w.foreignAgent()
 		m := mint(fa, w.fClient, s.User, jwtAT)
 		if m.Err != "" {
-			return tokenTruth{Live: 0, Why: "foreign mint failed: " + m.Err}
+			return tokenTruth{Live: 0, Why: "foreign mint failed: " + m.Err, final: true}
 		}
-		return tokenTruth{Token: pick(m, s.Kind), Live: -1, Why: "foreign"}
+		return tokenTruth{Token: pick(m, s.Kind), Live: -1, Why: "foreign", final: true}
 	}
 	owner := w.clB
 	if s.Owner == "self" {
 		owner = w.clA
 	}
-	m := mint(w.ag, owner, s.User, jwtAT)
+	mh := w.hostIdx(s.MintHost)
+	mag := w.ags[mh]
+	m := mint(mag, owner, s.User, jwtAT)
 	if m.Err != "" {
-		return tokenTruth{Live: 0, Why: "mint failed: " + m.Err}
+		return tokenTruth{Live: 0, Why: "mint failed: " + m.Err, final: true}
 	}
 	tok := pick(m, s.Kind)
-	tt := tokenTruth{Token: tok, Subject: s.User, Why: s.State}
-	ownerCred := vkit.RightCred(owner, issuer)
+	tt := tokenTruth{Token: tok, Subject: s.User, Why: s.State, orig: tok, accessID: m.AccessID, refresh: m.Refresh, signer: w.sk.KeyName, kid: w.sk.KID, mintHost: mh}
+	ownerCred := vkit.RightCred(owner, w.issuerOf(mh))
 	switch s.State {
 	case "live":
 	case "expired":
@@ -378,14 +492,15 @@ func (w *world) prepare(s TokSpec) tokenTruth {
 		}
 	case "revoked":
 		if s.Kind == "refresh" {
-			w.ag.Revoke(m.Refresh, "refresh_token", ownerCred)
+			mag.Revoke(m.Refresh, "refresh_token", ownerCred)
 		} else {
-			w.ag.Revoke(m.Access, "access_token", ownerCred)
+			mag.Revoke(m.Access, "access_token", ownerCred)
 		}
 	case "rotated":
-		w.ag.Token(url.Values{"grant_type": {vkit.GRefr}, "refresh_token": {m.Refresh}}, ownerCred)
+		mag.Token(url.Values{"grant_type": {vkit.GRefr}, "refresh_token": {m.Refresh}}, ownerCred)
 	case "resigned":
-		other := map[string]string{"rsa1": "rsa4", "p256a": "p256b", "ed1": "ed2"}[w.sk.KeyName]
+		other := otherKey(w.sk.KeyName)
+		tt.signer = other
 		tt.Token = reforge(tok, func(_, _ map[string]any) {}, other)
 	case "wrongiss":
 		tt.Token = reforge(tok, func(_, cl map[string]any) { cl["iss"] = "https://evil.example.net" }, w.sk.KeyName)
@@ -402,10 +517,19 @@ func (w *world) prepare(s TokSpec) tokenTruth {
 			tt.Token = flipChar(tok, p+1+(strings.LastIndex(tok, ".")-p)/2)
 		}
 	}
-	// ground truth from the store
+	return tt
+}
+
+// at judges a prepared token at the moment it is presented on host `host`: ground truth from the store, the keys the
+// storage serves now, and the issuer of that host.
+func (w *world) at(s TokSpec, tt tokenTruth, host int) tokenTruth {
+	if tt.final {
+		return tt
+	}
+	tok := tt.orig
 	switch s.Kind {
 	case "opaque", "jwt":
-		at, ok := w.st.TokenSnapshot(m.AccessID)
+		at, ok := w.st.TokenSnapshot(tt.accessID)
 		storeLive := ok && !at.Revoked && at.Exp.After(time.Now().Add(2*time.Second))
 		switch s.State {
 		case "live":
@@ -422,7 +546,7 @@ func (w *world) prepare(s TokSpec) tokenTruth {
 			}
 		}
 	case "refresh":
-		rt, ok := w.st.RefreshSnapshot(m.Refresh)
+		rt, ok := w.st.RefreshSnapshot(tt.refresh)
 		storeLive := ok && !rt.Dead && rt.Exp.After(time.Now().Add(2*time.Second))
 		switch s.State {
 		case "live":
@@ -448,7 +572,100 @@ func (w *world) prepare(s TokSpec) tokenTruth {
 			}
 		}
 	}
+	switch s.Kind {
+	case "jwt", "id":
+		// a JWT is a token of the provider only where its issuer is the one it is presented to and while the storage serves its key
+		switch served := w.keyServed(tt.signer, tt.kid); {
+		case s.State == "resigned":
+			if served >= 0 {
+				tt.Live, tt.Why = 0, "setup: the key the harness re-signed with is one the storage serves now"
+			}
+		case w.c.Hosts && tt.mintHost != host:
+			tt.Live, tt.Unverifiable = -1, "other-host-issuer"
+		case served < 0:
+			tt.Live, tt.Unverifiable = -1, "withdrawn-key"
+		case served == 0 && tt.Live > 0:
+			tt.Live, tt.Why = 0, "the storage serves the signing key under another kid now"
+		}
+	default:
+		// opaque access tokens and refresh tokens name no issuer: whether one obtained on the provider's other host counts
+		// as a token of this host is not said
+		if w.c.Hosts && tt.mintHost != host && tt.Live > 0 {
+			tt.Live, tt.Why = 0, "issuer-less token obtained on the provider's other host"
+		}
+	}
 	return tt
+}
+
+func (w *world) hostIdx(h int) int {
+	if !w.c.Hosts || h != 1 {
+		return 0
+	}
+	return 1
+}
+
+func (w *world) issuerOf(h int) string { return w.ags[h].S.IssuerFor(w.ags[h].Host) }
+
+// keyServed: +1 the storage serves that key under that kid now, 0 under another kid only, -1 not at all.
+func (w *world) keyServed(name, kid string) int {
+	out := -1
+	for _, k := range w.st.PubKeys {
+		if k.KeyName == name {
+			if k.KID == kid {
+				return 1
+			}
+			out = 0
+		}
+	}
+	return out
+}
+
+var keyChain = map[string][]string{"RS256": {"rsa1", "rsa2", "rsa3", "rsa4"}, "ES256": {"p256a", "p256b"}, "EdDSA": {"ed1", "ed2"}}
+
+// otherKey: a key of the same algorithm that is not the given one (what "resigned" tokens are signed with).
+func otherKey(name string) string {
+	return map[string]string{"rsa1": "rsa4", "rsa2": "rsa1", "rsa3": "rsa2", "rsa4": "rsa3", "p256a": "p256b", "p256b": "p256a", "ed1": "ed2", "ed2": "ed1"}[name]
+}
+
+// keyOp: the storage changes its keys between two requests (same algorithm throughout: the provider's verifiers were
+// configured with it). rotate-*: it signs with the next key from now on and keeps publishing the old public keys /
+// withdraws them all (new kid, or the kid of the key it replaces); withdraw-old: only the current signing key stays published.
+func (w *world) keyOp(op string) {
+	if !contains(keyOps, op) || op == "" {
+		return
+	}
+	w.keyOps++
+	w.keyTrace = append(w.keyTrace, op)
+	pub := func(k vkit.SignKeySpec) vkit.PubKeySpec {
+		return vkit.PubKeySpec{KeyName: k.KeyName, Alg: k.Alg, KID: k.KID, Use: "sig"}
+	}
+	cur := w.st.SignKey
+	chain := keyChain[cur.Alg]
+	next := cur
+	for i, n := range chain {
+		if n == cur.KeyName {
+			next.KeyName = chain[(i+1)%len(chain)]
+		}
+	}
+	next.KID = fmt.Sprintf("sig%d", w.keyOps+1)
+	switch op {
+	case "rotate-keep":
+		var keep []vkit.PubKeySpec
+		for _, k := range w.st.PubKeys {
+			if k.KeyName != next.KeyName { // a key that comes back is published once, under its new kid
+				keep = append(keep, k)
+			}
+		}
+		w.st.SignKey, w.st.PubKeys = next, append(keep, pub(next))
+	case "rotate-withdraw":
+		w.st.SignKey, w.st.PubKeys = next, []vkit.PubKeySpec{pub(next)}
+	case "rotate-withdraw-samekid":
+		next.KID = cur.KID
+		w.st.SignKey, w.st.PubKeys = next, []vkit.PubKeySpec{pub(next)}
+	case "withdraw-old":
+		w.st.PubKeys = []vkit.PubKeySpec{pub(cur)}
+	}
+	w.sk = w.st.SignKey
 }
 
 func b2i(b bool) int {
@@ -499,7 +716,7 @@ func (w *world) validity(s TokSpec, tt tokenTruth) (int, string) {
 		if couldDecrypt(tt.Token) {
 			return 0, "storage-does-not-check:undecidable-opaque"
 		}
-		if s.Kind == "jwt" && (s.State == "revoked" || s.State == "rotated") {
+		if s.Kind == "jwt" && (s.State == "revoked" || s.State == "rotated") && tt.Unverifiable == "" {
 			return 0, "storage-does-not-check:jwt/" + s.State
 		}
 	}
@@ -510,7 +727,7 @@ func (w *world) validity(s TokSpec, tt tokenTruth) (int, string) {
 	if s.Declared != matchingType(s.Kind) {
 		// whatever its state: the token is not of the declared type. One family gets its own class: the provider's two
 		// JWT kinds presented as each other while the JWT itself still verifies (signature, issuer, expiry).
-		verifies := s.State == "live" || s.Kind == "jwt" && (s.State == "revoked" || s.State == "rotated")
+		verifies := (s.State == "live" || s.Kind == "jwt" && (s.State == "revoked" || s.State == "rotated")) && tt.Unverifiable == ""
 		if verifies && (s.Kind == "jwt" && s.Declared == "id" || s.Kind == "id" && s.Declared == "access") {
 			return -1, "jwt-kind-confusion:" + s.Kind + "-as-" + s.Declared
 		}
@@ -518,6 +735,11 @@ func (w *world) validity(s TokSpec, tt tokenTruth) (int, string) {
 	}
 	if tt.Live == 0 {
 		return 0, "setup-grey"
+	}
+	if tt.Unverifiable != "" {
+		// foreign at this host (issued under the issuer of the provider's other host) / not a validly signed token of
+		// the provider any more (the storage withdrew the key): an invalid subject or actor token whatever else is true of it
+		return -1, tt.Unverifiable + ":" + s.Kind
 	}
 	if tt.Live < 0 {
 		return -1, "dead:" + s.Kind + "/" + s.State
@@ -531,7 +753,7 @@ func (w *world) credential() (vkit.Cred, int, string) {
 	method := a.AuthMethod
 	switch w.c.Cred {
 	case "right":
-		cr := vkit.RightCred(a, issuer)
+		cr := vkit.RightCred(a, w.iss)
 		if method == "none" {
 			return cr, 0, "public-client-identified"
 		}
@@ -568,7 +790,7 @@ func (w *world) credential() (vkit.Cred, int, string) {
 		return vkit.Cred{Kind: "basic", ClientID: "%zz" + a.ID, Secret: "secret-a", NoEscape: true}, -1, "malformed-basic-header"
 	case "bad_assertion":
 		now := time.Now()
-		as := vkit.AssertionWith(a.ID, a.ID, []string{issuer}, "ka", "rsa4", now.Add(-5*time.Second), now.Add(5*time.Minute), nil)
+		as := vkit.AssertionWith(a.ID, a.ID, []string{w.iss}, "ka", "rsa4", now.Add(-5*time.Second), now.Add(5*time.Minute), nil)
 		if method == "none" {
 			return vkit.Cred{Kind: "assertion", Assertion: as, BodyID: a.ID}, 0, "public-client-with-bogus-assertion"
 		}
@@ -611,14 +833,93 @@ func run(c Case) (res *vkit.Result) {
 	w.clB = webClient("client-b", "secret-b")
 	clI := webClient("client-i", "secret-i")
 	w.st = vkit.NewStore([]*vkit.ClientSpec{w.clA, w.clB, clI}, w.sk, vkit.StorePolicy{TE: c.Policy})
-	sut := buildSUT(c.Router, issuer, 0, w.st, c.Extras)
-	w.ag = vkit.NewAgent(sut)
+	sut := buildSUT(c.Router, issuer, 0, w.st, c.Extras, c.Hosts)
+	w.ags[0], w.ags[1] = vkit.NewAgent(sut), vkit.NewAgent(sut)
+	if c.Hosts {
+		w.ags[1].Host = otherHost
+	}
 
-	// --- histories that produce the subject / actor tokens
-	subj := w.prepare(c.Subject)
-	var act tokenTruth
-	if c.Actor != nil {
-		act = w.prepare(*c.Actor)
+	// --- the provider's life: key changes of the storage, histories that produce the subject / actor tokens, exchanges
+	steps := c.steps()
+	if len(steps) > 8 {
+		steps = steps[:8]
+	}
+	type slot struct{ step, role int }
+	spec := func(k slot) *TokSpec {
+		if k.role == 1 {
+			return steps[k.step].Actor
+		}
+		return &steps[k.step].Subject
+	}
+	// replayed(k): the slot whose token string slot k presents (itself, or the subject of an earlier exchange)
+	replayed := func(k slot) slot {
+		for n := 0; n < len(steps); n++ {
+			r := spec(k).Replay
+			if r <= 0 || r > k.step {
+				break
+			}
+			k = slot{r - 1, 0}
+		}
+		return k
+	}
+	born := func(k slot) int {
+		b := spec(k).Born
+		if b < 0 {
+			b = 0
+		}
+		if b > k.step {
+			b = k.step
+		}
+		return b
+	}
+	prepared := map[slot]tokenTruth{}
+	var outs []stepOut
+	for i, st := range steps {
+		if i > 0 {
+			w.keyOp(st.KeyOp)
+		}
+		// tokens minted now (the clients as registered for obtaining tokens)
+		w.clA.GrantTypes = []string{vkit.GCode, vkit.GRefr, vkit.GTE}
+		for j := i; j < len(steps); j++ {
+			for role := 0; role < 2; role++ {
+				k := slot{j, role}
+				if spec(k) == nil || replayed(k) != k || born(k) != i {
+					continue
+				}
+				prepared[k] = w.prepare(*spec(k))
+			}
+		}
+		host := w.hostIdx(st.Host)
+		w.ag, w.iss = w.ags[host], w.issuerOf(host)
+		sk := replayed(slot{i, 0})
+		subj := w.at(*spec(sk), prepared[sk], host)
+		var act tokenTruth
+		if st.Actor != nil {
+			ak := replayed(slot{i, 1})
+			act = w.at(*spec(ak), prepared[ak], host)
+		}
+		outs = append(outs, w.exchange(res, i, st, subj, act))
+	}
+	w.evidence(res, steps, outs)
+	return res
+}
+
+// stepOut is what one exchange contributes to the case's evidence.
+type stepOut struct {
+	Outcome    string
+	Grey       bool
+	NonTrivial bool
+	Key        string
+	Info       map[string]any
+}
+
+// exchange sends one token-exchange request to the provider as it is now and judges the answer with the model of the statement.
+func (w *world) exchange(res *vkit.Result, idx int, st Step, subj, act tokenTruth) stepOut {
+	c := w.c
+	c.Subject, c.Actor, c.Requested = st.Subject, st.Actor, st.Requested
+	where := ""
+	if len(c.More) > 0 || c.Hosts {
+		where = fmt.Sprintf(" (exchange %d of %d on host %d, storage key changes so far: %s)", idx+1, len(c.More)+1, w.hostIdx(st.Host), strings.Join(append([]string{"none"}, w.keyTrace...)[min(len(w.keyTrace), 1):], ", "))
 	}
 	// the exchanging client as configured for the exchange itself
 	w.clA.JWTAccessToken = c.IssueJWT
@@ -696,11 +997,11 @@ func run(c Case) (res *vkit.Result) {
 	switch {
 	case resp.Panic != nil:
 		outcome = "panic"
-		res.Fail("C15:panic@"+resp.PanicFrame(), "token exchange panicked (%v) for subject %s/%s declared %q, actor %s: %s", resp.Panic, c.Subject.Kind, c.Subject.State, c.Subject.Declared, actorDesc(c.Actor), libFrames(resp.Stack, 4))
+		res.Fail("C15:panic@"+resp.PanicFrame(), "token exchange panicked (%v) for subject %s/%s declared %q, actor %s: %s%s", resp.Panic, c.Subject.Kind, c.Subject.State, c.Subject.Declared, actorDesc(c.Actor), libFrames(resp.Stack, 4), where)
 	case resp.Success():
 		outcome = "success"
 		if mustReject {
-			res.Fail(rejectFP, "token exchange answered %d although %s; body %s", resp.Status, rejectWhy, clip(resp.Body))
+			res.Fail(rejectFP, "token exchange answered %d although %s; body %s%s", resp.Status, rejectWhy, clip(resp.Body), where)
 		} else {
 			expSub := subj.Subject
 			if c.Policy.Impersonate != "" {
@@ -724,18 +1025,20 @@ func run(c Case) (res *vkit.Result) {
 	default:
 		// a refusal must be an OAuth error document without token material
 		if resp.OAuthError() == "" {
-			res.Fail("C15:refusal-is-not-an-oauth-error", "token exchange refused with status %d but the body is no OAuth error document: %s", resp.Status, clip(resp.Body))
+			res.Fail("C15:refusal-is-not-an-oauth-error", "token exchange refused with status %d but the body is no OAuth error document: %s%s", resp.Status, clip(resp.Body), where)
 		}
 		if tm := resp.HasTokenMaterial(); len(tm) > 0 {
-			res.Fail("C15:refusal-carries-token-material", "token exchange refused with status %d but the body carries %v", resp.Status, tm)
+			res.Fail("C15:refusal-carries-token-material", "token exchange refused with status %d but the body carries %v%s", resp.Status, tm, where)
 		}
 		outcome = "refused:" + resp.OAuthError()
 	}
 
-	// --- evidence
-	// class labels (kept below 80 distinct values: the evidence keeps the 80 most frequent)
-	res.Label("mode:"+orNone(c.Mode), "router:"+c.Router, "outcome:"+strings.SplitN(outcome, ":", 2)[0], "requested:"+orNone(c.Requested),
-		"subject:"+validityClass(sv, sWhy, true), "auth:"+authClass(authV, authWhy))
+	// --- evidence of this exchange (labels count exchanges)
+	out := stepOut{Outcome: outcome, NonTrivial: authV >= 0} // non-trivial: the request got past client authentication, i.e. the exchange logic itself decided
+	res.Label("outcome:"+strings.SplitN(outcome, ":", 2)[0], "requested:"+orNone(c.Requested), "subject:"+validityClass(sv, sWhy, true))
+	if idx == 0 {
+		res.Label("auth:" + authClass(authV, authWhy))
+	}
 	if matchingType(c.Subject.Kind) != "" {
 		res.Label("subject-kind:" + c.Subject.Kind)
 	}
@@ -758,12 +1061,48 @@ func run(c Case) (res *vkit.Result) {
 			res.Label("eligible-refused")
 		}
 	default:
-		res.Grey = true
+		out.Grey = true
 		res.Label("grey")
 	}
 	res.Label("type-decided-by:" + decidedBy)
 	if effective == undecided && !mustReject {
 		res.Label("undecided-type:" + strings.SplitN(outcome, ":", 2)[0])
+	}
+	if idx > 0 {
+		// what the provider's earlier life adds to this exchange
+		res.Label("later-exchange:" + map[bool]string{true: "must-reject", false: "may-succeed"}[mustReject] + "/" + strings.SplitN(outcome, ":", 2)[0])
+		if st.Subject.Replay > 0 || st.Actor != nil && st.Actor.Replay > 0 {
+			res.Label("later-exchange:earlier-subject-token-again")
+		}
+		if st.Subject.Born < idx && st.Subject.Replay == 0 {
+			res.Label("later-exchange:token-minted-earlier")
+		}
+	}
+	for _, tt := range []tokenTruth{subj, act} {
+		if tt.Unverifiable != "" {
+			res.Label("presented:" + tt.Unverifiable)
+		}
+	}
+	actorKey := "absent"
+	if c.Actor != nil {
+		actorKey = c.Actor.Kind + "/" + c.Actor.State + "/" + c.Actor.Declared
+	}
+	out.Key = fmt.Sprintf("%s|%s|%s|%s/%s/%s|%s|req=%s|def=%s|jwt=%v|imp=%v|veto=%v|third=%v/%v|%s", c.Router, c.ClientAuth, c.Cred,
+		c.Subject.Kind, c.Subject.State, c.Subject.Declared, actorKey, c.Requested, c.Policy.DefaultType, c.IssueJWT, c.Policy.Impersonate != "", c.Policy.Veto, c.Policy.VerifyThird, c.Extras, strings.SplitN(outcome, ":", 2)[0])
+	if idx > 0 || c.Hosts {
+		out.Key += fmt.Sprintf("|host=%d|keyop=%s|s=%s%s|a=%s%s", w.hostIdx(st.Host), st.KeyOp, subj.Unverifiable, map[bool]string{true: "/replay"}[st.Subject.Replay > 0], act.Unverifiable, map[bool]string{true: "/replay"}[st.Actor != nil && st.Actor.Replay > 0])
+	}
+	out.Info = map[string]any{"outcome": outcome, "status": resp.Status, "subject_validity": sWhy, "actor_validity": aWhy, "auth": authWhy, "effective_type": effective, "must_reject": mustReject, "eligible": eligible}
+	return out
+}
+
+// evidence: the case-level labels, and the case's non-triviality / distinctness class from those of its exchanges.
+func (w *world) evidence(res *vkit.Result, steps []Step, outs []stepOut) {
+	c := w.c
+	// class labels (kept small: the evidence keeps the most frequent ones)
+	res.Label("mode:"+orNone(c.Mode), "router:"+c.Router)
+	if c.Shape != "" {
+		res.Label("shape:" + c.Shape)
 	}
 	if c.Policy.Veto {
 		res.Label("policy:veto")
@@ -783,16 +1122,29 @@ func run(c Case) (res *vkit.Result) {
 	if c.Policy.NoLivenessCheck {
 		res.Label("policy:no-liveness-check")
 	}
-	// non-trivial: the request got past client authentication, i.e. the exchange logic itself decided
-	res.NonTrivial = authV >= 0
-	actorKey := "absent"
-	if c.Actor != nil {
-		actorKey = c.Actor.Kind + "/" + c.Actor.State + "/" + c.Actor.Declared
+	if c.Hosts {
+		res.Label("provider:issuer-from-host")
 	}
-	res.Key = fmt.Sprintf("%s|%s|%s|%s/%s/%s|%s|req=%s|def=%s|jwt=%v|imp=%v|veto=%v|third=%v/%v|%s", c.Router, c.ClientAuth, c.Cred,
-		c.Subject.Kind, c.Subject.State, c.Subject.Declared, actorKey, c.Requested, c.Policy.DefaultType, c.IssueJWT, c.Policy.Impersonate != "", c.Policy.Veto, c.Policy.VerifyThird, c.Extras, strings.SplitN(outcome, ":", 2)[0])
-	res.Info = map[string]any{"outcome": outcome, "status": resp.Status, "subject_validity": sWhy, "actor_validity": aWhy, "auth": authWhy, "effective_type": effective, "must_reject": mustReject, "eligible": eligible}
-	return res
+	if len(steps) > 1 {
+		res.Label(fmt.Sprintf("exchanges-on-one-provider:%d", len(steps)))
+	}
+	for _, op := range w.keyTrace {
+		res.Label("storage-keys:" + op)
+	}
+	res.Grey = true
+	var keys []string
+	var infos []map[string]any
+	for _, o := range outs {
+		res.Grey = res.Grey && o.Grey
+		res.NonTrivial = res.NonTrivial || o.NonTrivial
+		keys = append(keys, o.Key)
+		infos = append(infos, o.Info)
+	}
+	res.Key = strings.Join(keys, " ; ")
+	res.Info = infos[0]
+	if len(infos) > 1 {
+		res.Info = map[string]any{"exchanges": infos, "key_changes": w.keyTrace}
+	}
 }
 
 // validityClass folds the model's reason into a small label set (dead states are kept apart for the subject only).
@@ -1021,7 +1373,7 @@ func (w *world) judgeSuccess(res *vkit.Result, resp *vkit.Resp, effective, expSu
 			return "refresh"
 		}
 		b2 := tokenIDs(w.st)
-		rr := w.ag.Token(url.Values{"grant_type": {vkit.GRefr}, "refresh_token": {rt}}, vkit.RightCred(w.clA, issuer))
+		rr := w.ag.Token(url.Values{"grant_type": {vkit.GRefr}, "refresh_token": {rt}}, vkit.RightCred(w.clA, w.iss))
 		if rr.Panic != nil {
 			res.Fail("C15:panic@"+rr.PanicFrame(), "refresh grant panicked on the exchanged refresh token: %v", rr.Panic)
 			return "refresh"
@@ -1045,7 +1397,7 @@ func (w *world) judgeSuccess(res *vkit.Result, resp *vkit.Resp, effective, expSu
 		if !v.SigOK {
 			res.Fail("C15:issued-jwt-bad-signature:id token", "the ID token handed out does not verify under the provider's key")
 		}
-		if claimStr(v.Claims, "iss") != issuer {
+		if claimStr(v.Claims, "iss") != w.iss {
 			res.Fail("C15:issued-id-token-wrong-issuer", "the ID token handed out has iss=%q", claimStr(v.Claims, "iss"))
 		}
 		if exp, _ := v.Claims["exp"].(float64); int64(exp) <= time.Now().Unix() {
@@ -1079,6 +1431,7 @@ var prop = vkit.Prop[Case]{
 	ID: "C15",
 	Rule: "cases = subject token and optional actor token, each minted through the real code flow (opaque / JWT access token, refresh token, ID token; own or other client; user u1-u3) and then left live or expired / revoked / rotated / issued by a foreign provider / re-signed / wrong issuer / alg none / tampered, or a storage-vouched third-party token, or garbage " +
 		"x declared type (matching, other supported, unsupported, absent) x requested type (absent, access, refresh, id, jwt, unsupported) x scope / audience / resource lists x storage policy (default type when requested_token_type is absent: access / refresh / id / none = left unset, impersonation, dropped scopes, veto, third-party verifier, access-token liveness check on / off) x client auth method x credential presentation (right, secret by the other channel, wrong secret, none, unknown client, forged assertion, malformed Basic header) x client grants x issued access token format x signing key x router, drawn in three modes (every premise true / exactly one broken / free); " +
+		"half of the cases add the provider's life around the exchange: a provider whose issuer is derived from the Host header serving two hosts (tokens obtained on one host presented on the other: a JWT / ID token of the other host's issuer is a foreign token = must-reject, issuer-less opaque / refresh tokens of the other host are grey) and / or 1-3 further exchanges on the SAME provider, each on a generated host, each preceded by a generated key change of the storage (rotation with the old public keys kept / all withdrawn under a new or the same kid, withdrawal of the older keys), presenting tokens minted before any of the earlier exchanges or the very subject token of an earlier exchange again; every exchange is judged by the same model against the keys the storage serves and the store's records AT THAT TIME: a JWT signed by a key the storage has withdrawn is not a live, verifiable token of the provider = invalid subject / actor token = must-reject, one signed by an older key that is still published stays valid; " +
 		"non-trivial = the request passes client authentication so the exchange logic decides; distinct = (router, auth method, credential, subject kind/state/declared, actor kind/state/declared, requested, default, format, impersonation, veto, verifier, outcome)",
 	Gen: genCase,
 	Run: run,
